@@ -250,6 +250,17 @@ def oracle_c13(r):
     if best is not None and gen > best + Fraction(1, 10 ** 12):
         out.append((None, f"generated {list(hits)} (|acc-target|={float(gen):.6g}) is farther from "
                           f"{float(target):.6g} than {list(best_h)} ({float(best):.6g})"))
+    # the same comparison measured with the crate's PUBLIC accuracy functions (brute force in the harness)
+    if "panic_public_measure" in r:
+        out.append((None, "accuracy() of a redistributed state panicked: " + r["panic_public_measure"]))
+    if "pub_gen" in r:
+        pg, pb = fbits(r["pub_gen"]), fbits(r["pub_best"])
+        if not (pg <= pb + 1e-12):
+            out.append((None, f"measured with the public accuracy(): generated {list(hits)} is at distance {pg:.9g} from "
+                              f"the target {float(target):.6g}, another distribution of the same objects reaches {pb:.9g}"))
+        if abs(pg - float(gen)) > 1e-9:
+            out.append((None, f"the public accuracy() of the generated state {list(hits)} is at distance {pg:.9g} from the target, "
+                              f"the documented formula gives {float(gen):.9g}"))
     return out
 
 
